@@ -68,7 +68,9 @@ func viewOf(msg []byte) viewInfo {
 	js := jsonPart(msg)
 	// datagram
 	dg, payload := "NotDatagram", 0
-	if bytes.Contains(msg, []byte("datagram")) {
+	// the router of the connection (ship.hasSpineDatagram): a frame of message type data that
+	// contains the word - a control message that merely mentions it is a SHIP message
+	if len(msg) > 0 && msg[0] == model.MsgTypeData && bytes.Contains(msg, []byte("datagram")) {
 		var d model.ShipData
 		if err := json.Unmarshal(js, &d); err != nil {
 			dg = "DgErr"
